@@ -175,6 +175,10 @@ def r4_plumbing(ctx: Ctx) -> None:
     cs = calls_in(gi.node, "IncludeIpsNode")
     ok = len(cs) == 1 and [unparse(a) for a in cs[0].args] == [f"{gi.params()[0]}.file_path", gi.params()[1], f"{gi.params()[0]}.expression"]
     ctx.check(ok, "generate_include_ips", "IncludeIpsNode(node.file_path, resolver, node.expression)")
+    rets = [r for r in walk_no_nested(gi.node) if isinstance(r, ast.Return)]
+    fresh = len(rets) == 1 and isinstance(rets[0].value, ast.List) and len(rets[0].value.elts) == 1 and cs and rets[0].value.elts[0] is cs[0] and len(gi.node.body) == 1
+    ctx.check(bool(fresh), "generate_include_ips:fresh-node", "every directive reads its file and applies its own delta: the function only returns a newly built node "
+              "(a node cached across directives keeps the first delta and the first file contents)")
     ctx.count("plumbing", 4)
 
 
